@@ -117,13 +117,19 @@ func graphGen(args []string) error {
 			s.sid++
 			w.write(map[string]any{"op": "Pair", "sid": s.sid, "x": u.All[i], "y": u.All[j]})
 		}
-		if *n == 0 {
+		// every single list through every removal and every relating of a node
+		for i := range u.All {
+			s.sid++
+			w.write(map[string]any{"op": "EditAll", "sid": s.sid, "x": u.All[i]})
+		}
+		switch {
+		case *n == 0:
 			for i := range u.All {
 				for j := range u.All {
 					emit(i, j)
 				}
 			}
-		} else {
+		case *n > 0:
 			for k := 0; k < *n; k++ {
 				emit(r.Intn(len(u.All)), r.Intn(len(u.All)))
 			}
